@@ -33,6 +33,11 @@ BASES = {
     "rdate-exdate": cal(["BEGIN:VEVENT", "UID:3", "DTSTART:20240101T090000Z", "RDATE;TZID=Europe/Berlin:20240302T100000,20240303T100000", "EXDATE;TZID=Asia/Tokyo:20240302T100000", "RDATE;VALUE=DATE:20240401,20240402", "END:VEVENT"]),
     "freebusy": cal(["BEGIN:VFREEBUSY", "UID:4", "DTSTAMP:20240101T000000Z", "FREEBUSY;FBTYPE=BUSY:20240301T080000Z/PT1H,20240302T080000Z/20240302T093000Z", "FREEBUSY;TZID=Europe/Berlin:20240303T080000/PT2H", "END:VFREEBUSY"]),
     "custom-vtimezone": cal(CUSTOM_TZ, ["BEGIN:VEVENT", "UID:5", "DTSTART;TZID=Custom/C09:20240701T120000", "DTEND;TZID=Custom/C09:20241201T120000", "END:VEVENT"]),
+    # the definition stands AFTER the properties that use it / between two users (RFC 5545 fixes no order): whatever the
+    # reader makes of the forward reference (C12 judges that), it makes the same of it under every insignificant rewrite
+    "custom-vtimezone-after": cal(["BEGIN:VEVENT", "UID:5a", "DTSTART;TZID=Custom/C09:20240701T120000", "RDATE;TZID=Custom/C09:20240702T120000", "END:VEVENT"], CUSTOM_TZ),
+    "custom-vtimezone-between": cal(["BEGIN:VTODO", "UID:5b", "DUE;TZID=Custom/C09:20240701T120000", "END:VTODO"], CUSTOM_TZ,
+                                    ["BEGIN:VEVENT", "UID:5c", "DTSTART;TZID=Custom/C09:20241201T120000", "END:VEVENT"]),
     "categories": cal(["BEGIN:VEVENT", "UID:6", "CATEGORIES:Work,Private Life,Xyz", "RESOURCES:Beamer,Room", "CATEGORIES;LANGUAGE=de:Arbeit", "END:VEVENT"]),
     "alarms": cal(["BEGIN:VEVENT", "UID:7", "DTSTART;TZID=Europe/Berlin:20240601T100000", "BEGIN:VALARM", "ACTION:DISPLAY", "TRIGGER;RELATED=END:-PT15M", "REPEAT:2", "DURATION:PT5M", "END:VALARM", "BEGIN:VALARM", "ACTION:AUDIO", "TRIGGER;VALUE=DATE-TIME:20240601T070000Z", "END:VALARM", "END:VEVENT"]),
     "unknown-components": cal(["BEGIN:X-OUTER", "X-A:1", "BEGIN:FOO", "X-B;X-P=q:2", "DTSTART;TZID=Europe/Berlin:20240601T100000", "END:FOO", "END:X-OUTER"]),
